@@ -267,7 +267,12 @@ func (c *Classifier) Normalize(in []byte) []byte {
 	}
 
 	prevLine := 1
-	buf.WriteString(c.dict.getWord(doc.Tokens[0].ID))
+	// The first token needs no separator. If the first line holds no words the
+	// first token is an EOL token; it is accounted for by the line change of the
+	// token that follows it, so it must not be written out itself.
+	if first := c.dict.getWord(doc.Tokens[0].ID); first != eol {
+		buf.WriteString(first)
+	}
 	for _, t := range doc.Tokens[1:] {
 		// Only write out an EOL token that incremented the line
 		if t.Line == prevLine+1 {
